@@ -261,6 +261,36 @@ func (e *Env) coercer(n *Node) conf.CoercerFunc {
 	}
 }
 
+// funcTestValue builds a "func" test the way the documentation's reusable tests are used: one z.TestFunc value made
+// without options, copied, and the copy specialised by assigning its fields before it is handed to schema.Test.
+func (e *Env) funcTestValue(n *Node, idx int, ts TestSpec) z.Test {
+	shared := z.TestFunc("", e.testFunc(n, idx, ts.Str))
+	t := shared
+	o := ts.Opts
+	if o.Code != "" {
+		t.IssueCode = o.Code
+	}
+	if o.Path != "" {
+		t.IssuePath = o.Path
+	}
+	if o.HasParams {
+		m := map[string]any{}
+		for k, v := range o.Params {
+			m[k] = v
+		}
+		t.Params = own(e, m)
+	}
+	if o.Msg != "" {
+		msg := o.Msg
+		t.IssueFmtFunc = func(is *z.ZogIssue, ctx z.Ctx) { is.SetMessage(msg) }
+	}
+	if o.MsgFunc != "" {
+		marker := o.MsgFunc
+		t.IssueFmtFunc = func(is *z.ZogIssue, ctx z.Ctx) { is.SetMessage(marker) }
+	}
+	return t
+}
+
 func (e *Env) opts(o Opts) []z.TestOption {
 	var out []z.TestOption
 	if o.Msg != "" {
@@ -345,7 +375,11 @@ func buildNumber[T number](e *Env, n *Node, s *z.NumberSchema[T]) *z.NumberSchem
 		case "oneof":
 			s.OneOf(own(e, convList[T](ts.Args)), o...)
 		case "func":
-			s.TestFunc(e.testFunc(n, i, ts.Str), o...)
+			if ts.AsValue {
+				s.Test(e.funcTestValue(n, i, ts))
+			} else {
+				s.TestFunc(e.testFunc(n, i, ts.Str), o...)
+			}
 		default:
 			panic("model: number test " + ts.Name)
 		}
@@ -446,7 +480,11 @@ func build(n *Node, e *Env) (z.ZogSchema, reflect.Type) {
 		for i, ts := range n.Tests {
 			o := e.opts(ts.Opts)
 			if ts.Name == "func" {
-				s.TestFunc(e.testFunc(n, i, ts.Str), o...)
+				if ts.AsValue {
+					s.Test(e.funcTestValue(n, i, ts))
+				} else {
+					s.TestFunc(e.testFunc(n, i, ts.Str), o...)
+				}
 				continue
 			}
 			if ts.Name == "min" {
@@ -524,7 +562,11 @@ func build(n *Node, e *Env) (z.ZogSchema, reflect.Type) {
 			case "eq":
 				s.EQ(ts.Arg.S == "true")
 			case "func":
-				s.TestFunc(e.testFunc(n, i, ts.Str), e.opts(ts.Opts)...)
+				if ts.AsValue {
+					s.Test(e.funcTestValue(n, i, ts))
+				} else {
+					s.TestFunc(e.testFunc(n, i, ts.Str), e.opts(ts.Opts)...)
+				}
 			default:
 				panic("model: bool test " + ts.Name)
 			}
@@ -554,7 +596,11 @@ func build(n *Node, e *Env) (z.ZogSchema, reflect.Type) {
 			case "eq":
 				s.EQ(mustTime(ts.Arg.S), o...)
 			case "func":
-				s.TestFunc(e.testFunc(n, i, ts.Str), o...)
+				if ts.AsValue {
+					s.Test(e.funcTestValue(n, i, ts))
+				} else {
+					s.TestFunc(e.testFunc(n, i, ts.Str), o...)
+				}
 			default:
 				panic("model: time test " + ts.Name)
 			}
@@ -594,7 +640,11 @@ func build(n *Node, e *Env) (z.ZogSchema, reflect.Type) {
 					s.Contains(reflect.ValueOf(ts.Arg.Go()).Convert(et).Interface(), o...)
 				}
 			case "func":
-				s.TestFunc(e.testFunc(n, i, ts.Str), o...)
+				if ts.AsValue {
+					s.Test(e.funcTestValue(n, i, ts))
+				} else {
+					s.TestFunc(e.testFunc(n, i, ts.Str), o...)
+				}
 			default:
 				panic("model: slice test " + ts.Name)
 			}
@@ -622,7 +672,11 @@ func build(n *Node, e *Env) (z.ZogSchema, reflect.Type) {
 				if ts.Name != "func" {
 					panic("model: struct test " + ts.Name)
 				}
-				s.TestFunc(e.testFunc(n, i, ts.Str), e.opts(ts.Opts)...)
+				if ts.AsValue {
+					s.Test(e.funcTestValue(n, i, ts))
+				} else {
+					s.TestFunc(e.testFunc(n, i, ts.Str), e.opts(ts.Opts)...)
+				}
 			}
 		}
 		addPosts := func(s *z.StructSchema, from, to int) {
